@@ -83,6 +83,7 @@ func c03(c *Ctx) {
 	c.borrow(c17, map[string]string{"C17.brnetconn": "C03.early-bytes"})
 	r.Rule("C03.control-frames", "control frames of every legal size between fragments are read and dispatched to their handler without touching the message state (same rules as C08.read-buffer, C08.dispatch)")
 	c.borrow(c08, map[string]string{"C08.read-buffer": "C03.control-frames", "C08.dispatch": "C03.control-frames", "C08.defaults": "C03.control-frames"})
+	c.joinTerm("C03.reader-wrappers")
 	r.Rule("C03.inflater-exclusive", "an inflater returned to flateReaderPool is forgotten by the wrapper in the same step (never used or returned twice), so two connections never share one decompressor")
 	r.Assume("bufio.Reader.Read returns 0 <= n <= len(p)")
 
@@ -105,6 +106,7 @@ func c03(c *Ctx) {
 	rd.remainingRule("C03.remaining")
 	rd.eofProvenance("C03.eom")
 	rd.unexpectedEOFProvenance("C03.eom")
+	flateWrapperRule(c, "C03.eom") // the inflate wrapper reports end of message exactly when the inflater does
 	rd.acceptsEveryLength("C03.remaining")
 	rd.skipLoop("C03.skip-loop")
 	rd.inflateWrap("C03.inflate-iff-rsv1")
